@@ -30,6 +30,17 @@ CFG4 = [
 ]
 
 
+def closure_configs(storages=("mem", "csv"), N=2, D=60):
+    """Configurations explored to the fixpoint: all histories of ANY length that stay within N stored points."""
+    out = []
+    for c in CFG4:
+        if c["storage"] in storages:
+            d = dict(c)
+            d.update(name=c["name"] + f"/closure-N{N}", N=N, D=D)
+            out.append(d)
+    return out
+
+
 class E1Check:
     prop = "C00"
     level = "model_checking"
@@ -164,6 +175,7 @@ class E1Check:
             "samples": res.samples or [{"note": "no successor states"}],
             "exhaustive": bool(res.exhaustive),
             "closed": bool(res.closed_all),
+            "closed_configs": [p["config"] for p in res.per_config if p["closed"]],
             "bounds": self.bounds(),
             "caps_hit": res.caps,
             "per_config": res.per_config,
